@@ -842,9 +842,17 @@ impl Db {
     pub fn query(&mut self, q: &str) -> Outcome<QRes> {
         let q = q.to_string();
         self.call(move |db, rt| {
-            let r = rt.block_on(db.run_query(&q, false, true, vec![]));
+            let explain = std::env::var("LVMC_EXPLAIN").is_ok();
+            let r = rt.block_on(db.run_query(&q, explain, true, vec![]));
             match r {
-                Ok(o) => Ok(normalize_output(&o)),
+                Ok(o) => {
+                    if explain {
+                        for (p, n) in &o.query_plans {
+                            eprintln!("[plan x{}]\n{}", n, p);
+                        }
+                    }
+                    Ok(normalize_output(&o))
+                }
                 Err(e) => Err(err_kind(&e)),
             }
         })
